@@ -225,6 +225,14 @@ def _precedence(P, R):
                 R.hold("c", "%s folds left with %s(result, next)" % (folder, ctor.rsplit("::", 1)[1]), fn=g)
             else:
                 R.violate("c", "fold-direction:%s" % folder, "%s does not fold left (first argument is `%s`)" % (folder, a0[:60]), g)
+        elif not ctors and _folds_with_fn_item(g, ctor) is not None:
+            # a shared helper spliced in, the constructor handed to it as a function item and applied by Iterator::fold / reduce
+            # (both fold from the left: f(acc, next))
+            how, other = _folds_with_fn_item(g, ctor)
+            if other:
+                R.violate("c", "fold-connective:%s" % folder, "%s builds its group with %s" % (folder, other.rsplit("::", 1)[1]), g)
+            else:
+                R.hold("c", "%s folds left with %s via Iterator::%s" % (folder, ctor.rsplit("::", 1)[1], how), fn=g)
         elif not ctors:
             # the connective is applied somewhere the rule does not look (a shared helper taking the constructor as a function
             # value, `reduce(join)`): no verdict rather than a guess
@@ -278,6 +286,20 @@ def _identifier_class(P, R):
             R.violate("h", "identifier-rest-excludes-digits", "is_identifier tests the characters after the first with %s only: a field called `base2` is not an identifier for parse_value, so `x = base2;` stores the string \"base2\" and not the value of base2 (the condition patterns accept `[a-zA-Z_][a-zA-Z0-9_]*`)" % letters[0], pf)
         else:
             R.undecide("h", "is_identifier", "the continuation predicate of is_identifier uses no character-class test this rule reads", pf)
+
+
+def _folds_with_fn_item(g, ctor):
+    """(adapter, wrong constructor or None) when g hands a ConditionGroup constructor as a function item to a left fold."""
+    for c in g.calls():
+        if c.bb not in g.normal_blocks() or c.name.rsplit("::", 1)[-1] not in ("fold", "reduce", "try_fold"):
+            continue
+        for a in c.args[1:]:
+            x = strip(g.sym_operand(a))
+            while x[0] == "cast":          # fn item -> fn pointer
+                x = strip(x[1])
+            if x[0] == "const" and x[1] == "fn" and isinstance(x[2], str) and x[2].startswith("engine::rule::ConditionGroup::"):
+                return (c.name.rsplit("::", 1)[-1], None if x[2] == ctor else x[2])
+    return None
 
 
 # ------------------------------------------------------------------------------------------------ d
